@@ -5,7 +5,7 @@
 use crate::derive_specs as ds;
 use crate::util::catch;
 use ebml_iterable::specs::{EbmlSpecification, EbmlTag, Master, PathPart, TagDataType};
-use ebml_iterable::{TagIterator, TagWriter};
+use ebml_iterable::{TagIterator, TagWriter, WriteOptions};
 use std::fmt::Debug;
 use std::io::Cursor;
 use std::panic::{catch_unwind, AssertUnwindSafe};
@@ -174,6 +174,16 @@ where
             let raw = T::get_raw_tag(id, bin);
             if raw.get_id() != id || answering(&raw) != "B" || raw.as_binary() != Some(bin) {
                 viol.push(format!("raw:{:x}", id));
+            }
+            // ... and the writer takes it whatever the id is declared as (an error is fine, a 'bad specification' panic is not)
+            let raw_written = catch_unwind(AssertUnwindSafe(|| {
+                let mut w = TagWriter::new(Cursor::new(Vec::new()));
+                let _ = w.write(&raw);
+                let _ = w.write_advanced(&raw, WriteOptions::set_size_byte_count(2));
+                let _ = w.write_advanced(&raw, WriteOptions::is_unknown_sized_element());
+            }));
+            if raw_written.is_err() {
+                viol.push(format!("writer-raw-panic:{:x}", id));
             }
             // used with the iterator (as the first element of a stream: implied parents are built with get_master_tag)
             // and with the writer (parents named in an all-identifier path are opened first): no panic, same id back
